@@ -78,8 +78,9 @@ def run(ctx, args):
     frames = [0, 1, 2, 5, 6, 7, 255, 256, 65535, 65536, 65537, mx, mx + 1]
     frames += [rng.randrange(1, 1 << 20) for _ in range(6 if quick else 30)]
     frames += [rng.randrange(1 << 20, mx) for _ in range(1 if quick else 4)] + [mx - 1]
+    # (receive limits stay below the initial QUIC stream window so that an over-limit frame can still be written)
     pcases = {"batches": batches, "frames": frames, "over": [mx + 1, 64 << 20, 1 << 30, (1 << 32) - 1],
-              "limits": [1, 1000, 65536, rng.randrange(2, 1 << 20)], "big_send": not quick}
+              "limits": [1, 1000, 65536, rng.randrange(2, 300000)], "big_send": not quick}
     ppath = os.path.join(ctx.scratch, "pcases.json")
     with open(ppath, "w") as fh:
         json.dump(pcases, fh)
